@@ -119,7 +119,7 @@ CHECKS = {
             "and wall clock are assumed, only tested.", "section 5, C20"),
     "C09": ("Coq theorems on the size/limit arithmetic (var_int_len_from_size inverse for all lengths, truthful var-int "
             "lengths, panic branch reached iff out of range, limit scalars from the source) plus the per-packet "
-            "size-agreement/limit theorems listed in the evidence; encoder models tied to the crate for every "
+            "size-agreement/limit theorems listed in the evidence (incl. the converse of the over-size rule for SUBACK/UNSUBACK: never refused when the packet without diagnostics fits); encoder models tied to the crate for every "
             "peer maximum 1..64 and samples to 2^28, debug and release builds.", "section 5, C09"),
     "C12": ("Coq theorems (Props/C12.v, 14) about an executable model of inflight.rs driven by io.rs's reading rule, "
             "for all legal operation sequences: at most max_receive non-chunk calls run at once, bytes in flight "
